@@ -12,7 +12,8 @@ try:
         print('PATTERN NOT FOUND'); sys.exit(3)
     open(p, 'w').write(s.replace(old, new, 1))
     for pid in pids:
-        r = subprocess.run(['./vcheck', pid, '--repo', d], capture_output=True, text=True, cwd='/verif')
+        r = subprocess.run(['./vcheck', pid, '--repo', d], capture_output=True, text=True, cwd='/verif',
+                           env=dict(os.environ, VERIF_NO_EVIDENCE='1', VERIF_OUT=os.path.join(d, 'out')))
         lines = [l for l in r.stdout.splitlines() if l.startswith(('VIOLATION', 'ANALYSIS-ERROR', '  '))]
         print(pid, 'exit', r.returncode, '|', ' || '.join(l[:230] for l in lines[:3]))
 finally:
